@@ -107,6 +107,7 @@ func unwrap(v interface{}) interface{} {
 // PrepareQuery checks that the given selectionSet matches the schema typ, and
 // parses the args in selectionSet
 func PrepareQuery(ctx context.Context, typ Type, selectionSet *SelectionSet) error {
+	vh("prepare.visit")
 	switch typ := typ.(type) {
 	case *Scalar:
 		if selectionSet != nil {
